@@ -21,6 +21,16 @@ D = {
  "S-C17-2": ("UpdatePaymentAddress lets a did:key's payment address be replaced by an address that has no key DID yet", "a second UpdatePaymentAddress for a did:key, submitted from a fresh address"),
  "S-C18-2": ("GetAllPastSeeds decodes into one shared variable (gogoproto appends repeated fields)", "two did:sid identities that have each rotated their keys, then export -> InitChain"),
  "S-C19-2": ("ReportFaults no longer looks the reporter up as a node: being listed in fishmen_info suffices", "an address listed as fishman that is not a registered node reports a fault"),
+ "S-C02-3": ("ShardPledge subtracts the unpaid part (pledge debt) from TotalShardPledged when a provider takes over a renewed shard it cannot fully collateralise", "store, complete, renew, migrate to a provider whose balance is positive but below the collateral, two periods later the release makes TotalShardPledged negative: panic in the sao end-blocker"),
+ "S-C04-3": ("Renew prices the renewal by len(order.Shards) instead of order.Replica", "a renewal issued while a migration of the order is pending (the order lists the old and the new shard)"),
+ "S-C05-3": ("RollbackMeta restores OrderId from Orders[len(Commits)-1] instead of the last order", "a model that has been renewed (Orders longer than Commits), then an update on it is cancelled or times out"),
+ "S-C06-3": ("ClaimReward moves the whole debt repaid (incl. the block-reward part) from the market escrow to the node escrow", "block reward > 0, a provider with pledge debt that claims with unclaimed block reward"),
+ "S-C07-3": ("ShardPledge builds the coins to transfer before the amount is raised to the highest queued renewal collateral", "renew with a longer term, then migration: the new provider is charged the base amount while the raised amount is recorded and later returned"),
+ "S-C11-3": ("ResetMetaDuration skips renewal orders when recomputing the model's lifetime", "renew, rotation into the renewal (original order removed), then an update on the model is cancelled or times out: the model is deleted while its shard is paid"),
+ "S-C12-3": ("Cancel removes the whole TimeoutOrder record of the cancelled order's check height", "two unfinished orders whose timeout checks fall on the same height, one is cancelled, a provider of the other stays silent"),
+ "S-C13-3": ("Renew skips shards in status Timeout instead of refusing", "timeout re-assignment, replacement completes, renew before the next timeout check: the renewal order keeps listing the removed shard"),
+ "S-C14-3": ("ShardPledge adds to TotalShardPledged before the amount is raised to the queued renewal collateral", "renew with a longer term, then migration completed by a new provider"),
+ "S-C16-3": ("UpdateMetaStatusAndCommit returns early (before recording the update in flight) when the model already outlives the new order", "an update with a shorter term than what is left of the model (or after a renewal), then a second Store on the same base while it is in flight"),
  "S-C20-2": ("the staking hook takes the absolute value of the share delta, so a top-up is counted as a reduction", "a node right around the share threshold whose delegation is modified (top-up) after another delegation changed the validator's total"),
 }
 res = collections.defaultdict(list)
@@ -35,7 +45,7 @@ for id_, (change, needs) in D.items():
     caught = [r['check'] for r in rs if r['rc'] == '1']
     silent = [r['check'] for r in rs if r['rc'] == '0']
     meta = {
-        "id": id_, "breaks_property": id_[2:5], "round": 2, "change": change, "needs_to_manifest": needs,
+        "id": id_, "breaks_property": id_[2:5], "round": int(id_[-1]), "change": change, "needs_to_manifest": needs,
         "confirmed": "tools/confirm_seeded.sh in the agent's scratch worktree: go build ./x/... ./app/... ./cmd/... ok; demo/demo_test.go FAILS with patch.diff applied and PASSES without; 47/47 baseline tests still pass with the patch",
         "checks_run": "tools/seeded_matrix.sh (git apply to /repo, ./check <id> --tier quick at VERIF_SEED=1, git checkout): " + ", ".join(f"{r['check']} rc={r['rc']} violations={r['violations']} {r['first_rule']}" for r in rs),
         "caught_by": caught, "silent": silent,
